@@ -983,6 +983,11 @@ class Consumer(object):
         proc_block_end = proc_block_size
 
         while proc_block_begin < len(messages) and not self._shuttingdown:
+            # Never hand another block to the processor once we have been
+            # stopped, or once an error (such as a failed block) has been
+            # reported through the start() deferred.
+            if self._stopping or self._start_d is None or self._start_d.called:
+                break
             msgs_to_proc = messages[proc_block_begin:proc_block_end]
             # Call our processor callable and handle the possibility it returned
             # a deferred...
